@@ -108,7 +108,8 @@ def units_invert_post(self, result):
 def units_raiseto_post(self, e, result):
     _hit("Units.raiseto")
     a, c = _dim3(self.dim), _dim3(result.dim)
-    if any(Fr(x) * Fr(e) != y for x, y in zip(a, c)):
+    # the documentation accepts float exponents such as 1/3 on m3 ("3/3=1 is still an integer"): judge to rounding
+    if any(abs(float(x) * float(e) - y) > 1e-9 for x, y in zip(a, c)):
         _bad("Units.raiseto", a=a, e=e, got=c)
     return True
 
